@@ -63,3 +63,96 @@ func VHarness_C11_LookupVsClose() {
 	vRunThreads()
 	vReach("done")
 }
+
+// ---- thread harness: apply worker vs snapshot/stream worker (C11 + C08) ----
+//
+// The index a snapshot is labelled with must be the index of the data the
+// user state machine captured in PrepareSnapshot, for every interleaving of
+// the apply path (handleEntry / handleBatch) with the snapshot paths
+// (concurrentSave, stream) at synchronisation-point granularity.  The user
+// state machine's PrepareSnapshot yields once (user code takes time).
+
+type vPrepUSM struct {
+	vUSM
+	inUpdate, inPrepare bool
+}
+
+func (s *vPrepUSM) BatchedUpdate(es []sm.Entry) ([]sm.Entry, error) {
+	vAssert(!s.inPrepare, "update-overlaps-prepare")
+	s.inUpdate = true
+	r, err := s.vUSM.BatchedUpdate(es)
+	s.inUpdate = false
+	return r, err
+}
+func (s *vPrepUSM) Prepare() (interface{}, error) {
+	vAssert(!s.inUpdate, "prepare-overlaps-update")
+	s.inPrepare = true
+	n := len(s.updates)
+	vYield()
+	vAssert(len(s.updates) == n, "update-during-prepare")
+	s.inPrepare = false
+	return n, nil
+}
+
+type vPrepSnapshotter struct {
+	vSnapshotter
+	seen int
+}
+
+func (s *vPrepSnapshotter) check(meta SSMeta) {
+	s.seen++
+	n, ok := meta.Ctx.(int)
+	vAssert(ok, "snapshot-carries-prepare-context")
+	// entries vBase .. vBase+n-1 were applied when the state was captured
+	vAssert(meta.Index == vBase-1+uint64(n), "snapshot-index-is-the-index-of-the-captured-state")
+}
+func (s *vPrepSnapshotter) Stream(st IStreamable, meta SSMeta, sink pb.IChunkSink) error {
+	s.check(meta)
+	return nil
+}
+func (s *vPrepSnapshotter) Save(sv ISavable, meta SSMeta) (pb.Snapshot, SSEnv, error) {
+	s.check(meta)
+	return pb.Snapshot{Index: meta.Index, Term: meta.Term}, SSEnv{}, nil
+}
+
+//vcheck: props=C08 reach=saved,streamed,done replay=symbolic switches=4
+func VHarness_C11_ApplyVsSnapshot() {
+	vInitResults(3)
+	u := &vPrepUSM{}
+	u.concurrent = true
+	stream := vBool("stream")
+	u.onDisk = stream
+	node := &vNode{}
+	sn := &vPrepSnapshotter{}
+	s := &StateMachine{node: node, sm: u, snapshotter: sn, onDiskSM: u.onDisk, taskQ: NewTaskQueue(),
+		sessions: &SessionManager{lru: newLRUSession(2)}, members: newMembership(1, 1, false)}
+	u.host = s
+	s.members.members.Addresses[1] = "a1"
+	s.index, s.term = vBase-1, 5
+	s.lastApplied.index, s.lastApplied.term = vBase-1, 5
+	if u.onDisk {
+		_, err := s.OpenOnDiskStateMachine()
+		vAssert(err == nil, "noerr")
+	}
+	s.taskQ.Add(Task{Entries: []pb.Entry{
+		{Type: pb.ApplicationEntry, Index: vBase, Term: 5, ClientID: 77, Cmd: []byte{1}},
+		{Type: pb.ApplicationEntry, Index: vBase + 1, Term: 5, ClientID: 77, Cmd: []byte{2}},
+	}})
+	vSpawn(func() {
+		_, err := s.Handle(nil, nil)
+		vAssert(err == nil, "apply-noerr")
+	})
+	vSpawn(func() {
+		if stream {
+			vAssert(s.Stream(nil) == nil, "stream-noerr")
+			vReach("streamed")
+		} else {
+			_, _, err := s.Save(SSRequest{Type: Exported})
+			vAssert(err == nil, "save-noerr")
+			vReach("saved")
+		}
+	})
+	vRunThreads()
+	vAssert(sn.seen == 1 && len(u.updates) == 2, "both-workers-finished")
+	vReach("done")
+}
